@@ -60,6 +60,17 @@ CHECKS = {
    note="Trusted: TLC, bash 5.2.15 as the authority for \"matches\" (72 extglob texts on which bash deviates from its documented semantics are excluded by the audit), C.UTF-8 code-point order. "
         "Pattern texts whose meaning POSIX leaves unspecified (WellDefined = FALSE) are not judged.",
    ref="DESIGN.md section 6 C08, Appendix F"),
+ "C04": dict(level=MC, thorough=True, tech="TLA+ WordExp.tla (marked-character fields through Brace -> Pieces -> Split -> Glob -> Unquote) with QuotedIdentity / SplitKeepsQuoted checked by TLC for every value and environment; argument lists of the unquoted forms and the identity of the quoted forms replayed into brush (bash audit) in every expansion context x IFS x glob option",
+   text="WordExp.tla tags every character as quoted / expansion result / literal; TLC checks on every value of <= 2 (thorough 3) characters x 64 environments that the quoted forms never reach Split or Glob (QuotedIdentity) and that "
+        "splitting leaves quoted characters alone, and emits the argument lists of $x, a$x\"$x\", ${u:-$x}, $x*, $(..), $@, ${a[@]} under 8 IFS values and two directories for replay; the identity of the quoted forms is then "
+        "replayed for ~2400 adversarial values (every string of <= 2 characters over 31 metacharacters, specials, random) in 44 contexts x IFS x glob-option configurations in a directory containing names the value could match.",
+   note="Trusted: TLC, bash 5.2.15 (audit; patterns with undefined meaning are not judged), C.UTF-8. Two recorded findings pinned by the suite's known_failure cases: literal text is split by IFS, no empty fields next to non-whitespace IFS characters.",
+   ref="DESIGN.md section 6 C04"),
+ "C05": dict(level=MC, thorough=True, tech="TLA+ WordExp.tla evaluated by TLC on every word of <= 2 (thorough 3, strided) pieces from a 46-piece pool x environments (IFS, directory, positional parameters, values); each argument list replayed in brush with bash audit; as-built deviations are named switches of the same specification",
+   text="Expand(word, env) of WordExp.tla is the argument list: brace expansion, then the pieces left to right (tilde, parameter, command, arithmetic) with quoted / splittable marks, POSIX field splitting, pathname expansion with "
+        "the dot-file rule and sorted matches, quote removal. TLC evaluates it on every word x environment (123k in quick) and the driver compares count, order and contents with brush's arguments (printf %s\\0) and `y=word`.",
+   note="Trusted: TLC, bash 5.2.15 (a (word, environment) counts only if bash reproduces the model; 0.4% excluded, mostly bash's own ${e:-$@} quirk), C.UTF-8. Two recorded findings pinned by known_failure cases (brace words re-joined with blanks; \"$*\" with empty IFS).",
+   ref="DESIGN.md section 6 C05"),
  "C06": dict(level=MC, thorough=True, tech="TLA+ ParamOps.tla (substring, prefix/suffix removal stated declaratively over Glob.tla's Match, replacement, case modification, default/assign/alternative/error operators) evaluated exhaustively by TLC; every (value, operator) pair replayed in brush with bash audit",
    text="ParamOps.tla defines each operator's result; TLC evaluates every value of <= 3 characters (blanks, newline, glob character, multi-byte) x every operator instance (offsets/lengths over negative, zero, "
         "in-range and out-of-range integers; every pattern of <= 2 tokens) and checks the declarative shortest/longest clause (RemovalSound) and SubstrSound on every value; the 112k results are compared with the real shell's.",
